@@ -20,6 +20,7 @@ func init() {
 			"PV-API integer spellings via strconv.ParseInt only; --since only from model.ParseDuration",
 			"PV-ROLE EvalParams are not modified between the CLI and the evaluators",
 			"PV-ROLE now = time.Now() in the run function",
+			"PV-VERBATIM the resolved bounds reach the storage unadjusted; parseDuration parses the flag's own text (no trimming)",
 		},
 		NotDecided: []string{"float rounding of fractional seconds beyond 'rounded, not truncated'", "model.ParseDuration semantics"},
 		Rules: func(r *Run) {
@@ -34,6 +35,8 @@ func init() {
 			ruleSinceOnlyPromDuration(r)
 			ruleEvalParamsUnmodified(r)
 			ruleNowAtRunTime(r)
+			ruleLogBoundsVerbatim(r)
+			ruleDurationTextVerbatim(r)
 		},
 	})
 }
